@@ -85,6 +85,9 @@ PROPS = {
              "bound": "ALL sequences of <= 3 Lru operations (9 kinds) over 3 keys x 4 regions x capacity {0,1}: every clause of the abstract Lru contract assumed by the Policy proof, evaluated on the real Lru after every call (pointer discipline included)"},
             {"name": "cache_histories", "bin": "replay_c16", "crate": "replay", "tiers": ("quick", "thorough"),
              "bound": "the real public TinyLFU, single-threaded, Piggyback maintenance, both unpin strategies: 60 seeded random histories of 1500 operations at capacities 1..8, 12 seeded random phase histories at capacities 96/160 (above the maintenance slack, so the bound is not vacuous), directed histories (empty probation at unpin, re-pin before a stale unpin, long-lived pin, popular newcomers against pinned victims, parked entries replaced within one maintenance batch at capacities 100/200); after every phase: pinned entries readable with their latest value, removed entries gone, residents <= capacity + pinned + 74"},
+            {"name": "lru_conformance_depth4", "repo_crate": "storage", "package": "qbice_storage", "test": "verif_lru_conformance", "env": {"VERIF_LRU_DEPTH": 4},
+             "ok_re": r"VERIF-LRU-CONFORMANCE ok sequences=(\d+)", "bad_re": r"VERIF-LRU-CONFORMANCE VIOLATION.*", "tiers": ("thorough",), "timeout": 3600,
+             "bound": "ALL sequences of <= 4 Lru operations (218,629,862 sequences; about 6 minutes): every clause of the abstract Lru contract on the real Lru"},
             {"name": "lru_conformance_miri", "repo_crate": "storage", "package": "qbice_storage", "test": "verif_lru_conformance", "env": {"VERIF_LRU_DEPTH": 2}, "miri": True,
              "ok_re": r"VERIF-LRU-CONFORMANCE ok sequences=(\d+)", "bad_re": r"VERIF-LRU-CONFORMANCE VIOLATION.*", "tiers": ("thorough",), "timeout": 7000,
              "bound": "same run at depth 2 under Miri: use-after-free / double free / invalid pointer use / leaks in the unsafe list code"},
